@@ -71,6 +71,13 @@ def parseLoc? (s : String) : Option Loc :=
   else if s.startsWith "N" then (s.drop 1).toNat?.map Loc.nodeNext
   else none
 
+/-! hlist entry iteration runs on machine addresses: node `id` lives at `HADDR id` (its `lnk` member, at
+offset 8 of the object) -/
+def HADDR (id : Nat) : Nat := 4096 + 32 * id
+def hAddrView (h : HHeap) : HHeap :=
+  ⟨fun l => (h.first l).map HADDR, fun a => (h.next ((a - 4096) / 32)).map HADDR, fun _ => none⟩
+/-- the object key behind an entry address (objects at `HADDR id - 8`), "null" for NULL -/
+def keyOfEntry (e : Addr) : String := if e = 0 then "null" else toString (((mcastIn e 8#64).toNat - 4096) / 32)
 def XOFF : Addr := 8#64
 def xObj (id : Nat) : Addr := mcastOut (BitVec.ofNat 64 id) XOFF
 def xId (e : Addr) : Nat := (mcastIn e XOFF).toNat
@@ -99,6 +106,9 @@ def step3 (st : DState) (op a b : String) : DState × String :=
       | "xmove_back" => res { st with h := nodeMovePrevThan st.h b a } "ok"
       | "xsplice" => res { st with h := listSplice st.h a b } "ok"
       | "sadd" => res { st with s := slistAdd st.s a b } "ok"
+      | "spop_entry" =>   -- list a, idiom b (0: mcast_out_or_null(slist_pop_first(..)), 1: slist_pop_first_entry)
+        let r := slistPopFirst st.s a
+        res { st with s := r.1 } (keyOfEntry (mcastOutOrNull (ptrOf (r.2.map HADDR)) XOFF))
       | "sxadd" => res { st with s := slistAdd st.s a b } "ok"
       | "smove_front" => res { st with s := slistMoveFront st.s FUEL a b } "ok"
       | "sin" => res st (if slistIn st.s FUEL a b then "1" else "0")
@@ -243,14 +253,15 @@ def stepLine (st : DState) (line : String) : DState × String :=
       | "cinit" => res { st with h := dlistInit st.h a } "ok"
       | "cdel" => res { st with h := dlistDel st.h a } "ok"
       | "cdel_init" => res { st with h := dlistDelInit st.h a } "ok"
-      | "csize" => res st (toString (dlistSize st.h FUEL a))
-      | "csize_rev" => res st (toString (dlistSizeReversed st.h FUEL a))
+      | "csize" => res st (toString (dlistSizeC st.h FUEL a))
+      | "csize_rev" => res st (toString (dlistSizeReversedC st.h FUEL a))
       | "cempty" => res st (if dlistEmpty st.h a then "1" else "0")
       | "ccorrect" => res st (if dlistIsCorrect st.h a then "1" else "0")
       | "ccorrect_strict" => res st (if dlistIsCorrect st.h a then "1" else "0")
       | "clist" => res st (ids (dlistToList st.h FUEL a))
       | "clist_rev" => res st (ids (dlistToListRev st.h FUEL a))
       | "xnew" => res { st with h := nodeCtor st.h a, alive := a :: st.alive } "ok"
+      | "xrenew" => res { st with h := nodeCtor st.h a } "ok"
       | "xdel" => res { st with h := nodeDtor st.h a, alive := st.alive.erase a } "ok"
       | "xlnew" => res { st with h := nodeCtor st.h a, alive := a :: st.alive } "ok"
       | "xldel" => res { st with h := listClear st.h a FUEL, alive := st.alive.erase a } "ok"
@@ -269,17 +280,32 @@ def stepLine (st : DState) (line : String) : DState × String :=
       | "xfront" => res st (toString (xId (listFront st.h (BitVec.ofNat 64 a) XOFF)))
       | "xback" => res st (toString (xId (listBack st.h (BitVec.ofNat 64 a) XOFF)))
       | "sinit" => res { st with s := slistInit st.s a } "ok"
+      | "smacros" =>
+        -- every container_of-style macro applied to the (once evaluated) node / object pointer of item a
+        let node : Addr := BitVec.ofNat 64 (HADDR a)
+        let obj : Addr := mcastOut node XOFF
+        let k1 := keyOfEntry (mcastOut node XOFF)
+        let k2 := keyOfEntry (mcastOutOrNull node XOFF)
+        let k3 := toString (((mcastIn obj XOFF).toNat - 4096) / 32)
+        res st (" ".intercalate [k1, k2, k1, k1, k1, k3, k3, k1])
+      | "cpop_entry" =>
+        let r := dlistPopFirst st.h a
+        res { st with h := r.1 } (keyOfEntry (mcastOutOrNull (ptrOf (r.2.map HADDR)) XOFF))
+      | "hpop_entry" =>
+        let r := hlistPopFirst st.hh a
+        res { st with hh := r.1 } (keyOfEntry (mcastOutOrNull (ptrOf (r.2.map HADDR)) XOFF))
       | "spop" =>
         let (s', r) := slistPopFirst st.s a
         res { st with s := s' } (match r with | some v => toString v | none => "null")
-      | "ssize" => res st (toString (slistSize st.s FUEL a))
+      | "ssize" => res st (toString (slistSizeC st.s FUEL a))
       | "sempty" => res st (if slistEmpty st.s a then "1" else "0")
       | "slist" => res st (ids (slistToList st.s FUEL a))
       | "hhead_init" => res { st with hh := hlistHeadInit st.hh a } "ok"
       | "hnode_init" => res { st with hh := hlistNodeInit st.hh a } "ok"
       | "hdel" => res { st with hh := hlistDel st.hh a } "ok"
       | "hlist" => res st (ids (hlistToList st.hh FUEL a))
-      | "hentries" => res st (ids (hlistToList st.hh FUEL a))
+      | "hentries" => res st (ids ((hlistForEachEntry (hAddrView st.hh) FUEL a XOFF).map fun e =>
+          ((mcastIn e XOFF).toNat - 4096) / 32))
       | "sxiter" => res st (ids (slistToList st.s FUEL a))
       | _ => bad
   | _ => bad
